@@ -340,7 +340,7 @@ func (e *Exec) havocByModset(ms map[string]bool, res *types.Tuple, tag string) V
 	}
 	var names []string
 	for n := range ms {
-		if n != "next" && !strings.HasPrefix(n, "G$") {
+		if n != "next" && !strings.HasPrefix(n, "G$") && !strings.HasPrefix(n, "alloc:") {
 			names = append(names, n)
 		}
 	}
@@ -349,6 +349,30 @@ func (e *Exec) havocByModset(ms map[string]bool, res *types.Tuple, tag string) V
 	if ms["next"] {
 		nn := Fresh("next$"+tag, SInt)
 		e.assume(Implies(e.guard(), Ge(nn, e.curState.next)))
+		if rc := e.root().C; rc != nil && rc.Flags["closed_alloc"] {
+			// flag closed_alloc of the function being verified: the objects a callee allocates are of the struct types its
+			// body (transitively) allocates - none of the repository's other struct types appears among the new objects.
+			// (Sound for repository callees: the pseudo components alloc:<type> are collected from the bodies; library
+			// models never allocate a repository struct.)
+			var conj []*Term
+			r := BoundVar("r", SInt)
+			for _, t := range typeTagList {
+				if t == nil {
+					continue
+				}
+				nt, ok := t.(*types.Named)
+				if !ok || nt.Obj().Pkg() == nil || !strings.HasPrefix(nt.Obj().Pkg().Path(), repoModule) {
+					continue
+				}
+				if _, ok := t.Underlying().(*types.Struct); !ok || ms["alloc:"+typeKey(t)] {
+					continue
+				}
+				conj = append(conj, Neq(RType(r), tagOf(t)))
+			}
+			if len(conj) > 0 {
+				e.assume(Implies(e.guard(), Forall([]*Term{r}, Implies(And(Le(e.curState.next, r), Lt(r, nn)), And(conj...)), []*Term{RType(r)})))
+			}
+		}
 		e.curState.next = nn
 	}
 	return e.freshResults(res, tag)
